@@ -372,8 +372,23 @@ def _resource(ctx, sig, data, detail, prefix="fuzz"):
         ctx.count(prefix + "_resource_exhaustion")
         ctx.extra.setdefault("resource_exhaustion_sites", {})
         ctx.extra["resource_exhaustion_sites"][sig] = ctx.extra["resource_exhaustion_sites"].get(sig, 0) + 1
-    else:
-        ctx.violation("runaway-allocation:" + sig, detail)
+        return
+    # the batch runs keep 3 allocation frames (speed); re-run this one input with deep allocation stacks for the site
+    site = "?"
+    try:
+        exe = build.exe("asan", "h_xmlfuzz", ["h_xmlfuzz.cc"])
+        d = Path(tempfile.mkdtemp(prefix="vf-c37-oom-", dir="/tmp"))
+        try:
+            f = d / "in.xml"
+            f.write_bytes(data if isinstance(data, bytes) else data.encode())
+            r = nat.run_exe(exe, ["file", f, detail.get("api", 0) or 0, detail.get("errsz", 1000) or 1000], "asan", timeout=600,
+                            env={"ASAN_OPTIONS": ASAN_OPTS.replace("malloc_context_size=3", "malloc_context_size=40")})
+            site = _alloc_site(r["err"])
+        finally:
+            shutil.rmtree(d, ignore_errors=True)
+    except Exception:          # noqa: BLE001
+        pass
+    ctx.violation("runaway-allocation:oom@" + site, detail)
 
 
 def _alloc_site(text):
@@ -455,7 +470,7 @@ def _fuzz(ctx, scratch, M):
     info = _prepare(scratch, M, L=True)
     ctx.extra["fuzz_corpus"] = info
     lists = (str(scratch / "seeds.txt"), str(scratch / "dict.txt"))
-    n_asan, n_rel = ctx.pick((3000, 17000), (48000, 400000))
+    n_asan, n_rel = ctx.pick((3000, 17000), (24000, 200000))
     b_asan, b_rel = ctx.pick((250, 2000), (1000, 10000))
     if rel_only:
         n_asan = 0
@@ -924,7 +939,7 @@ def _locate(M, new_root, old_root, old_node):
 
 def _schema(ctx, M, scratch):
     kinds = sorted(M.kinds)
-    reps, nconf = ctx.pick((2, 2), (24, 6))
+    reps, nconf = ctx.pick((2, 2), (16, 4))
     nproc = int(os.environ.get("VERIF_C37_THREADS", "8"))
     cases = []
     for rep in range(reps):
